@@ -434,8 +434,10 @@ def Env.width (env : Env) : Nat := env.foldr (fun p m => max p.2.length m) 0
 
 /-- fuel sufficient for decoding from a reader (theorem `C05_terminates`): fuel is a call-depth
     budget; `decMembers` spends one unit per member (also for an absent optional member, which
-    consumes no input), entering a nested struct / reading an element consumes at least one byte. -/
-def decFuel (env : Env) (r : Reader) : Nat := (env.width + 3) * (r.data.size + 2)
+    consumes no input), entering a nested struct / reading an element consumes at least one byte.
+    The summand `env.length` only makes the bound exceed every struct rank (`rk S ≤ env.length`),
+    which the proofs about `ResetDefault`'s own fuel use; it is not needed for decoding. -/
+def decFuel (env : Env) (r : Reader) : Nat := (env.width + 3) * (r.data.size + 2) + env.length
 
 /-- `st.ReadFrom(readBuf)` for struct `name` into a target currently holding `old` -/
 def decStruct (env : Env) (name : String) (old : Val) : RM Val := fun r =>
